@@ -334,7 +334,7 @@ func checkC18(c *Ctx, r *Report) {
 		var sites []string
 		rrT := w.lookupType("common", "ResolvedRange")
 		for _, fn := range w.SSAFuncs {
-			allInstrs(fn, false, func(f *ssa.Function, _ *ssa.BasicBlock, _ int, ins ssa.Instruction) {
+			allInstrsLocal(fn, false, func(f *ssa.Function, _ *ssa.BasicBlock, _ int, ins ssa.Instruction) {
 				st, ok := ins.(*ssa.Store)
 				if !ok {
 					return
